@@ -3,5 +3,499 @@ From Coq Require Import List Bool Arith Lia.
 From KV Require Import Model.Lifecycle.
 Import ListNotations.
 
-Lemma init_not_started : started init = false.
-Proof. reflexivity. Qed.
+(* ------------------------------------------------------------------ equalities *)
+
+Lemma root_eqb_eq : forall a b, root_eqb a b = true <-> a = b.
+Proof. intros a b; split; [destruct a, b; cbn; intros H; try reflexivity; discriminate H | intros ->; destruct b; reflexivity]. Qed.
+
+Lemma task_eqb_eq : forall a b, task_eqb a b = true <-> a = b.
+Proof.
+  intros a b; split.
+  - destruct a, b; cbn; intros H; try discriminate H; try reflexivity.
+    + apply root_eqb_eq in H; now subst.
+    + apply Nat.eqb_eq in H; now subst.
+    + apply Nat.eqb_eq in H; now subst.
+    + apply andb_true_iff in H as [H1 H2]. apply Nat.eqb_eq in H1, H2; now subst.
+    + apply Nat.eqb_eq in H; now subst.
+  - intros ->; destruct b; cbn; rewrite ?Nat.eqb_refl; try reflexivity. now apply root_eqb_eq.
+Qed.
+
+Lemma task_eqb_refl : forall a, task_eqb a a = true.
+Proof. intros; now apply task_eqb_eq. Qed.
+
+Lemma task_eqb_neq : forall a b, a <> b -> task_eqb a b = false.
+Proof. intros a b H; destruct (task_eqb a b) eqn:E; [apply task_eqb_eq in E; contradiction | reflexivity]. Qed.
+
+Lemma upd_same : forall f t p, upd f t p t = p.
+Proof. intros; unfold upd; now rewrite task_eqb_refl. Qed.
+
+Lemma upd_other : forall f t p x, x <> t -> upd f t p x = f x.
+Proof. intros; unfold upd; now rewrite task_eqb_neq. Qed.
+
+Lemma upd_cases : forall f t p x, (x = t /\ upd f t p x = p) \/ (x <> t /\ upd f t p x = f x).
+Proof.
+  intros. destruct (task_eqb x t) eqn:E.
+  - apply task_eqb_eq in E; subst; left; split; [reflexivity | apply upd_same].
+  - right; split; [intros ->; rewrite task_eqb_refl in E; discriminate | unfold upd; now rewrite E].
+Qed.
+
+Lemma cancel_in_cases : forall f ts x, cancel_in f ts x = f x \/ cancel_in f ts x = cancel_phase x (f x).
+Proof. intros; unfold cancel_in; destruct (mem_task x ts); auto. Qed.
+
+(* ------------------------------------------------------------------ runs *)
+
+Lemma run_app : forall a b s, run s (a ++ b) = match run s a with Some s' => run s' b | None => None end.
+Proof. induction a as [|l a IH]; intros b s; cbn; [reflexivity|]. destruct (step s l); [apply IH | reflexivity]. Qed.
+
+Lemma run_split : forall pre l post s s2, run s (pre ++ l :: post) = Some s2 ->
+  exists s0 s1, run s pre = Some s0 /\ step s0 l = Some s1 /\ run s1 post = Some s2.
+Proof.
+  intros pre l post s s2 H. rewrite run_app in H. destruct (run s pre) as [s0|] eqn:E; [|discriminate].
+  cbn in H. destruct (step s0 l) as [s1|] eqn:E1; [|discriminate]. now exists s0, s1.
+Qed.
+
+Lemma run_inv (P : state -> Prop) :
+  (forall s l s', P s -> step s l = Some s' -> P s') ->
+  forall tr s s', P s -> run s tr = Some s' -> P s'.
+Proof.
+  intros Hstep; induction tr as [|l tr IH]; intros s s' HP H; cbn in H.
+  - now injection H as <-.
+  - destruct (step s l) as [s1|] eqn:E; [|discriminate]. eapply IH; [eapply Hstep; eauto | exact H].
+Qed.
+
+(* ------------------------------------------------------------------ inversion of a step *)
+
+Ltac inv_step H :=
+  repeat match type of H with
+  | context [match ?x with _ => _ end] => let E := fresh "E" in destruct x eqn:E; try discriminate H
+  end; try (injection H as <-).
+
+(* cancel_act / cancel_roots described pointwise *)
+
+Definition act_after_cancel (a a' : aphase) : Prop :=
+  a' = a \/ (a' = AStopCore (Some OCancelled) /\ (a = AStartup \/ a = AWaitRoots)) \/ (a' = AWaitRoots /\ a = ASleep) \/
+  (a' = AEnd /\ (exists p, a = AStopCore p) ) \/ (a' = AEnd /\ (a = ACleanup \/ a = ACleanupRun)).
+
+Lemma cancel_act_spec : forall s s', cancel_act s = Some s' ->
+  spawned s' = spawned s /\ mn s' = mn s /\ started s' = started s /\ ready s' = ready s /\ stopflag s' = stopflag s /\
+  sfailed s' = sfailed s /\ swept s' = swept s /\ ostopped s' = ostopped s /\ asked s' = asked s /\
+  abandoned s' = abandoned s /\ graces s' = graces s /\ withdrawn s' = withdrawn s /\ hung s' = hung s /\
+  act_after_cancel (act s) (act s') /\
+  (forall t, ph s' t = ph s t \/ ph s' t = cancel_phase t (ph s t) \/
+             (t = TRoot RAct /\ ph s t = PRun /\ ph s' t = PDone OCancelled /\ act s' = AEnd)).
+Proof.
+  intros s s' H. unfold cancel_act in H. unfold act_after_cancel.
+  destruct (ph s (TRoot RAct)) eqn:EA;
+    try (injection H as <-; repeat split; auto; fail).
+  destruct (act s) eqn:Ea; try discriminate H; injection H as <-; cbn;
+    (repeat match goal with |- _ /\ _ => split end); auto;
+    try (intros t;
+         first [ destruct (cancel_in_cases (ph s) [TAuth] t); auto; fail
+               | destruct (upd_cases (ph s) (TRoot RAct) (PDone OCancelled) t) as [[-> E]|[N E]]; rewrite E; auto;
+                 right; right; auto ]);
+    try (intuition eauto; fail).
+  all: try (right; right; right; left; split; eauto).
+Qed.
+
+Lemma cancel_phase_idem : forall t p, cancel_phase t (cancel_phase t p) = cancel_phase t p.
+Proof. intros t []; reflexivity. Qed.
+
+Lemma cancel_roots_spec : forall s s', cancel_roots s = Some s' ->
+  spawned s' = spawned s /\ mn s' = mn s /\ started s' = started s /\ ready s' = ready s /\ stopflag s' = stopflag s /\
+  sfailed s' = sfailed s /\ swept s' = swept s /\ ostopped s' = ostopped s /\ asked s' = asked s /\
+  abandoned s' = abandoned s /\ graces s' = graces s /\ withdrawn s' = withdrawn s /\ hung s' = hung s /\
+  act_after_cancel (act s) (act s') /\
+  (forall t, ph s' t = ph s t \/ ph s' t = cancel_phase t (ph s t) \/
+             (t = TRoot RAct /\ ph s t = PRun /\ ph s' t = PDone OCancelled /\ act s' = AEnd)).
+Proof.
+  intros s s' H. unfold cancel_roots in H. apply cancel_act_spec in H.
+  remember (set_ph s (cancel_in (ph s) other_roots)) as s1 eqn:Es1.
+  assert (Hph : forall t, ph s1 t = cancel_in (ph s) other_roots t) by (subst s1; reflexivity).
+  assert (Hf : spawned s1 = spawned s /\ mn s1 = mn s /\ started s1 = started s /\ ready s1 = ready s /\
+               stopflag s1 = stopflag s /\ sfailed s1 = sfailed s /\ swept s1 = swept s /\ ostopped s1 = ostopped s /\
+               asked s1 = asked s /\ abandoned s1 = abandoned s /\ graces s1 = graces s /\ withdrawn s1 = withdrawn s /\
+               hung s1 = hung s /\ act s1 = act s) by (subst s1; cbn; repeat split; reflexivity).
+  destruct Hf as (F1&F2&F3&F4&F5&F6&F7&F8&F9&F10&F11&F12&F13&F14).
+  destruct H as (H1&H2&H3&H4&H5&H6&H7&H8&H9&H10&H11&H12&H13&H14&H15).
+  rewrite F1 in H1; rewrite F2 in H2; rewrite F3 in H3; rewrite F4 in H4; rewrite F5 in H5; rewrite F6 in H6;
+  rewrite F7 in H7; rewrite F8 in H8; rewrite F9 in H9; rewrite F10 in H10; rewrite F11 in H11; rewrite F12 in H12;
+  rewrite F13 in H13; rewrite F14 in H14.
+  repeat (split; [assumption|]). intros t. specialize (H15 t). rewrite !Hph in H15.
+  assert (HA : cancel_in (ph s) other_roots (TRoot RAct) = ph s (TRoot RAct)) by reflexivity.
+  destruct (cancel_in_cases (ph s) other_roots t) as [E|E]; rewrite E in H15.
+  - destruct H15 as [H|[H|(->&Hp&H&Ha)]]; auto. try (right; right; repeat split; auto; now rewrite <- HA).
+  - rewrite cancel_phase_idem in H15. destruct H15 as [H|[H|(->&Hp&H&Ha)]]; auto.
+    try (right; right; repeat split; auto; rewrite <- HA; now rewrite E).
+Qed.
+
+(* ------------------------------------------------------------------ 1. nothing before the flag *)
+
+Definition needs_flag (t : task) : bool :=
+  match t with TRoot r => guarded r | TWaiter => false | _ => true end.
+Definition quiet (p : phase) : bool :=
+  match p with PAbsent | PWaitFlag | PCancelW | PDone OCancelled => true | _ => false end.
+
+Definition Inv_quiet (s : state) : Prop :=
+  started s = false -> forall t, needs_flag t = true -> quiet (ph s t) = true.
+
+Lemma quiet_cancel : forall t p, quiet p = true -> quiet (cancel_phase t p) = true.
+Proof. intros t [] H; cbn in *; try discriminate; auto. Qed.
+
+Lemma quiet_not_runs : forall p, quiet p = true -> runs p = false.
+Proof. intros [] H; cbn in *; try discriminate; auto. Qed.
+
+Lemma api_needs_flag : forall t, api_capable t = true -> needs_flag t = true.
+Proof. intros [[]| | | | | |] H; cbn in *; try discriminate; reflexivity. Qed.
+
+Lemma started_mono_step : forall s l s', step s l = Some s' -> started s = true -> started s' = true.
+Proof.
+  intros s l s' H Hs. destruct l; unfold step in H; inv_step H; cbn; auto;
+    try (match goal with E : cancel_roots _ = Some _ |- _ => apply cancel_roots_spec in E; cbn; intuition congruence end).
+  all: try (unfold cancel_act in *; inv_step E; cbn; auto).
+Qed.
+
+Lemma started_only_Flag : forall s l s', step s l = Some s' -> started s = false -> started s' = true -> l = Flag.
+Proof.
+  intros s l s' H Hs Hs'. destruct l; auto; exfalso; unfold step in H; inv_step H; cbn in Hs';
+    try congruence;
+    try (match goal with E : cancel_roots _ = Some _ |- _ => apply cancel_roots_spec in E; cbn in *; intuition congruence end).
+Qed.
+
+Ltac quiet_upd Hq t0 :=
+  let t := fresh "t" in let Ht := fresh "Ht" in
+  intros t Ht; cbn;
+  match goal with |- quiet (upd ?f ?x ?p t) = true =>
+    destruct (upd_cases f x p t) as [[-> ->]|[? ->]]; [| now apply Hq] end.
+
+Lemma Inv_quiet_step : forall s l s', Inv_quiet s -> step s l = Some s' -> Inv_quiet s'.
+Proof.
+  intros s l s' Hq H Hs'.
+  assert (Hs : started s = false).
+  { destruct (started s) eqn:E; auto. rewrite (started_mono_step _ _ _ H E) in Hs'; discriminate. }
+  specialize (Hq Hs).
+  assert (Hnr : forall t, needs_flag t = true -> runs (ph s t) = false) by (intros; apply quiet_not_runs; auto).
+  assert (HnR : forall t, needs_flag t = true -> ph s t <> PRun).
+  { intros t Ht E. specialize (Hnr t Ht). rewrite E in Hnr; discriminate. }
+  destruct l; unfold step in H.
+  - (* StartupOk *) inv_step H; cbn; auto.
+  - inv_step H. intros t Ht; cbn. destruct (cancel_in_cases (ph s) [TAuth] t) as [->| ->]; auto using quiet_cancel.
+  - (* Flag *) inv_step H. cbn in Hs'. discriminate.
+  - inv_step H; cbn; auto.
+  - (* Cancel *) inv_step H; cbn; auto.
+    + apply cancel_roots_spec in E0. destruct E0 as (_&_&_&_&_&_&_&_&_&_&_&_&_&_&Hp).
+      intros t Ht. destruct (Hp t) as [->|[->|(->&_)]]; auto using quiet_cancel. discriminate Ht.
+    + intros t Ht. destruct (cancel_in_cases (ph s) (hung s) t) as [->| ->]; auto using quiet_cancel.
+  - (* Spawn *) inv_step H. unfold may_spawn in E.
+    apply andb_true_iff in E as [E Ek]. apply andb_true_iff in E as [E _]. apply andb_true_iff in E as [_ E].
+    exfalso. destruct t; try discriminate Ek; destruct by_ as [[]| | | | | |]; try discriminate Ek;
+      match goal with H : runs (ph s ?b) = true |- _ => rewrite (Hnr b eq_refl) in H; discriminate end.
+  - inv_step H; auto.
+  - inv_step H; cbn; auto.
+  - (* Fail *) inv_step H; cbn; intros t0 Ht0;
+      match goal with |- quiet (upd ?f ?x ?p t0) = true =>
+        destruct (upd_cases f x p t0) as [[-> ->]|[? ->]]; [| now apply Hq] end;
+      exfalso; eapply HnR; eauto.
+  - (* Finish *)
+    destruct (negb _) eqn:Eok in H; [discriminate|]. apply negb_false_iff in Eok.
+    assert (Hf : forall t0, needs_flag t0 = true -> quiet (upd (ph s) t (PDone o) t0) = true).
+    { intros t0 Ht0. destruct (upd_cases (ph s) t (PDone o) t0) as [[-> ->]|[? ->]]; [| now apply Hq].
+      specialize (Hq t Ht0). destruct (ph s t) eqn:Ep; cbn in Hq; try discriminate.
+      all: destruct o; cbn in Eok; try discriminate; try reflexivity. }
+    destruct t; try (injection H as <-; exact Hf).
+    destruct o; try (injection H as <-; exact Hf).
+    exfalso. specialize (Hq (TWorker w n) eq_refl).
+    destruct (ph s (TWorker w n)) eqn:Ep; cbn in Hq; try discriminate; cbn in Eok; try discriminate.
+  - (* MainStop *) inv_step H. apply cancel_roots_spec in E1. destruct E1 as (_&_&_&_&_&_&_&_&_&_&_&_&_&_&Hp).
+    intros t Ht; cbn. destruct (Hp t) as [->|[->|(->&_)]]; auto using quiet_cancel. discriminate Ht.
+  - (* RootsStopped *) inv_step H; unfold set_mn, set_hung, set_ph; cbn [ph]; auto.
+    intros t Ht. destruct (cancel_in_cases (ph s) (live_tasks s) t) as [->| ->]; auto using quiet_cancel.
+  - inv_step H; cbn; auto.
+  - (* GraceTimeout *) inv_step H; cbn; auto.
+    + intros t Ht. destruct (cancel_in_cases (ph s) (hung s) t) as [->| ->]; auto using quiet_cancel.
+    + intros t Ht. destruct (cancel_in_cases (ph s) (filter (is_worker_of w) (spawned s)) t) as [->| ->]; auto using quiet_cancel.
+    + exfalso. eapply (HnR (TDaemon d)); eauto.
+  - inv_step H; cbn; auto.
+  - inv_step H; cbn; auto.
+  - (* SweepFail *) inv_step H; cbn. exfalso. specialize (Hq (TRoot RKiller) eq_refl). rewrite E in Hq; discriminate.
+  - (* OrchStop *) inv_step H; cbn.
+    intros t Ht. destruct (cancel_in_cases (ph s) (filter is_ensemble (spawned s)) t) as [->| ->]; auto using quiet_cancel.
+  - (* ActRootsGone *) inv_step H; cbn.
+    intros t Ht. destruct (cancel_in_cases (ph s) [TAuth] t) as [->| ->]; auto using quiet_cancel.
+  - (* CoreStopped *) inv_step H; cbn; auto; intros t0 Ht0;
+      match goal with |- quiet (upd ?f ?x ?p t0) = true =>
+        destruct (upd_cases f x p t0) as [[-> ->]|[? ->]]; [discriminate Ht0 | now apply Hq] end.
+  - inv_step H; cbn; auto.
+  - inv_step H; cbn; intros t0 Ht0;
+      match goal with |- quiet (upd ?f ?x ?p t0) = true =>
+        destruct (upd_cases f x p t0) as [[-> ->]|[? ->]]; [discriminate Ht0 | now apply Hq] end.
+  - inv_step H; cbn; intros t0 Ht0;
+      match goal with |- quiet (upd ?f ?x ?p t0) = true =>
+        destruct (upd_cases f x p t0) as [[-> ->]|[? ->]]; [discriminate Ht0 | now apply Hq] end.
+  - inv_step H; auto.
+  - inv_step H; auto.
+Qed.
+
+Lemma Inv_quiet_init : Inv_quiet init.
+Proof. intros _ [[]| | | | | |] H; cbn in *; try discriminate; reflexivity. Qed.
+
+Lemma Inv_quiet_reach : forall tr s, run init tr = Some s -> Inv_quiet s.
+Proof. intros tr s H. eapply (run_inv Inv_quiet); eauto using Inv_quiet_step, Inv_quiet_init. Qed.
+
+Lemma started_needs_Flag : forall tr s0 s1, run s0 tr = Some s1 -> started s0 = false -> started s1 = true -> In Flag tr.
+Proof.
+  induction tr as [|l tr IH]; intros s0 s1 H H0 H1; cbn in H.
+  - injection H as <-. congruence.
+  - destruct (step s0 l) as [s'|] eqn:E; [|discriminate].
+    destruct (started s') eqn:Es.
+    + left. eapply started_only_Flag; eauto.
+    + right. eapply IH; eauto.
+Qed.
+
+Lemma started_mono : forall tr s0 s1, run s0 tr = Some s1 -> started s0 = true -> started s1 = true.
+Proof.
+  induction tr as [|l tr IH]; intros s0 s1 H H0; cbn in H.
+  - now injection H as <-.
+  - destruct (step s0 l) as [s'|] eqn:E; [|discriminate]. eapply IH; eauto using started_mono_step.
+Qed.
+
+(* no API request before the flag *)
+Lemma api_after_flag : forall pre t post s, run init (pre ++ Api t :: post) = Some s -> In Flag pre.
+Proof.
+  intros pre t post s H. apply run_split in H as (s0&s1&Hpre&Hst&_).
+  destruct (started s0) eqn:Es.
+  - eapply started_needs_Flag; eauto.
+  - exfalso. pose proof (Inv_quiet_reach _ _ Hpre Es t) as Hq. unfold step in Hst.
+    destruct (api_capable t) eqn:Ea; [|discriminate]. cbn in Hst.
+    rewrite (quiet_not_runs _ (Hq (api_needs_flag _ Ea))) in Hst. discriminate.
+Qed.
+
+(* the same for the creation of any child task (watchers, workers, daemons, keep-alives) *)
+Lemma spawn_after_flag : forall pre t b post s, run init (pre ++ Spawn t b :: post) = Some s -> In Flag pre.
+Proof.
+  intros pre t b post s H. apply run_split in H as (s0&s1&Hpre&Hst&_).
+  destruct (started s0) eqn:Es.
+  - eapply started_needs_Flag; eauto.
+  - exfalso. pose proof (Inv_quiet_reach _ _ Hpre Es) as Hq. unfold step in Hst.
+    destruct (may_spawn s0 t b) eqn:Em; [|discriminate]. unfold may_spawn in Em.
+    apply andb_true_iff in Em as [Em Ek]. apply andb_true_iff in Em as [Em _]. apply andb_true_iff in Em as [_ Er].
+    destruct t; try discriminate; destruct b as [[]| | | | | |]; try discriminate;
+      match goal with H : runs (ph s0 ?x) = true |- _ => rewrite (quiet_not_runs _ (Hq x eq_refl)) in H; discriminate end.
+Qed.
+
+(* the flag only after the startup activity succeeded *)
+Lemma aflag_only_StartupOk : forall s l s', step s l = Some s' -> act s' = AFlag -> l = StartupOk \/ act s = AFlag.
+Proof.
+  intros s l s' H Ha. destruct l; auto; right; unfold step in H; inv_step H; cbn in Ha; try congruence;
+    try (match goal with E : cancel_roots _ = Some _ |- _ => apply cancel_roots_spec in E;
+           destruct E as (_&_&_&_&_&_&_&_&_&_&_&_&_&Hc&_); cbn in Ha; unfold act_after_cancel in Hc; rewrite Ha in Hc;
+           destruct Hc as [Hc|[[Hc _]|[[Hc _]|[[Hc _]|[Hc _]]]]]; congruence end).
+Qed.
+
+Lemma aphase_eq_AFlag : forall a, a = AFlag \/ a <> AFlag.
+Proof. intros []; auto; right; discriminate. Qed.
+
+Lemma aflag_needs_StartupOk : forall tr s0 s1, run s0 tr = Some s1 -> act s0 <> AFlag -> act s1 = AFlag -> In StartupOk tr.
+Proof.
+  induction tr as [|l tr IH]; intros s0 s1 H H0 H1; cbn in H.
+  - injection H as <-. contradiction.
+  - destruct (step s0 l) as [s'|] eqn:E; [|discriminate].
+    destruct (aphase_eq_AFlag (act s')) as [Ea|Ea].
+    + destruct (aflag_only_StartupOk _ _ _ E Ea) as [->|]; [now left | contradiction].
+    + right. eapply IH; eauto.
+Qed.
+
+Lemma flag_after_startup_ok : forall pre post s, run init (pre ++ Flag :: post) = Some s -> In StartupOk pre.
+Proof.
+  intros pre post s H. apply run_split in H as (s0&s1&Hpre&Hst&_).
+  eapply aflag_needs_StartupOk; eauto; [cbn; discriminate|].
+  unfold step in Hst. destruct (act s0); try discriminate; reflexivity.
+Qed.
+
+(* ------------------------------------------------------------------ 2. ready flag; failed startup *)
+
+Ltac use_cancel_spec :=
+  repeat match goal with
+  | E : cancel_roots _ = Some _ |- _ =>
+      apply cancel_roots_spec in E; destruct E as (?&?&?&?&?&?&?&?&?&?&?&?&?&?&?)
+  end.
+
+Lemma ready_eq_started_step : forall s l s', step s l = Some s' -> ready s = started s -> ready s' = started s'.
+Proof.
+  intros s l s' H Hr. destruct l; unfold step in H; inv_step H; use_cancel_spec; cbn in *; congruence.
+Qed.
+
+Lemma ready_eq_started : forall tr s, run init tr = Some s -> ready s = started s.
+Proof. intros tr s H. eapply (run_inv (fun s => ready s = started s)); eauto using ready_eq_started_step. reflexivity. Qed.
+
+(* the startup activity failed: the flag is never set afterwards *)
+Definition Inv_sfailed (s : state) : Prop :=
+  sfailed s = true -> started s = false /\ act s <> AStartup /\ act s <> AFlag.
+
+Lemma act_after_cancel_keeps : forall a a', act_after_cancel a a' -> a <> AStartup -> a <> AFlag -> a' <> AStartup /\ a' <> AFlag.
+Proof.
+  intros a a' H H1 H2. unfold act_after_cancel in H.
+  destruct H as [->|[[-> _]|[[-> _]|[[-> _]|[-> _]]]]]; split; auto; discriminate.
+Qed.
+
+Lemma sfailed_only_StartupFail : forall s l s', step s l = Some s' -> sfailed s = false -> sfailed s' = true -> l = StartupFail.
+Proof.
+  intros s l s' H H0 H1. destruct l; auto; exfalso; unfold step in H; inv_step H; use_cancel_spec; cbn in *; congruence.
+Qed.
+
+Definition Inv_early (s : state) : Prop := act s = AStartup \/ act s = AFlag -> started s = false.
+
+Lemma act_after_cancel_early : forall a a', act_after_cancel a a' -> a' = AStartup \/ a' = AFlag -> a' = a.
+Proof.
+  intros a a' H H1. unfold act_after_cancel in H.
+  destruct H as [->|[[-> _]|[[-> _]|[[-> _]|[-> _]]]]]; auto; destruct H1; discriminate.
+Qed.
+
+Lemma Inv_early_step : forall s l s', Inv_early s -> step s l = Some s' -> Inv_early s'.
+Proof.
+  intros s l s' Hi H Hs'. unfold Inv_early in Hi.
+  destruct l; unfold step in H; inv_step H; use_cancel_spec; cbn in *;
+    try (destruct Hs'; discriminate);
+    try (apply Hi; rewrite <- ?E; rewrite <- ?E0; auto; fail);
+    try (match goal with Hc : act_after_cancel _ _ |- _ =>
+           pose proof (act_after_cancel_early _ _ Hc Hs') as Hk; rewrite Hk in Hs'; specialize (Hi Hs'); congruence end).
+Qed.
+
+Lemma Inv_sfailed_step : forall s l s', Inv_early s -> Inv_sfailed s -> step s l = Some s' -> Inv_sfailed s'.
+Proof.
+  intros s l s' He Hi H Hs'.
+  destruct (sfailed s) eqn:Ef.
+  - destruct (Hi Ef) as (H1&H2&H3).
+    destruct l; unfold step in H; inv_step H; use_cancel_spec; cbn in *;
+      try (repeat split; congruence);
+      try (match goal with Hc : act_after_cancel _ _ |- _ =>
+             destruct (act_after_cancel_keeps _ _ Hc H2 H3); repeat split; congruence end).
+  - pose proof (sfailed_only_StartupFail _ _ _ H Ef Hs'); subst l.
+    unfold step in H. inv_step H. cbn. repeat split; try discriminate. apply He; auto.
+Qed.
+
+Lemma Inv_sfailed_reach : forall tr s, run init tr = Some s -> Inv_early s /\ Inv_sfailed s.
+Proof.
+  intros tr s H. eapply (run_inv (fun s => Inv_early s /\ Inv_sfailed s)); eauto.
+  - intros s0 l s1 [A B] Hst. split; [eapply Inv_early_step | eapply Inv_sfailed_step]; eauto.
+  - split; [intros _; reflexivity | intros Hf; discriminate Hf].
+Qed.
+
+Lemma sfailed_mono_step : forall s l s', step s l = Some s' -> sfailed s = true -> sfailed s' = true.
+Proof.
+  intros s l s' H Hs. destruct l; unfold step in H; inv_step H; use_cancel_spec; cbn in *; congruence.
+Qed.
+
+Lemma sfailed_mono : forall tr s0 s1, run s0 tr = Some s1 -> sfailed s0 = true -> sfailed s1 = true.
+Proof.
+  induction tr as [|l tr IH]; intros s0 s1 H H0; cbn in H.
+  - now injection H as <-.
+  - destruct (step s0 l) as [s'|] eqn:E; [|discriminate]. eapply IH; eauto using sfailed_mono_step.
+Qed.
+
+(* a failed startup: no API request anywhere in the run, neither before nor after *)
+Lemma failed_startup_no_api : forall tr s, run init tr = Some s -> In StartupFail tr ->
+  started s = false /\ ready s = false /\ forall t, ~ In (Api t) tr.
+Proof.
+  intros tr s H Hin.
+  assert (Hsf : sfailed s = true).
+  { apply in_split in Hin as (pre&post&->). apply run_split in H as (s0&s1&_&Hst&Hpost).
+    eapply sfailed_mono; eauto. unfold step in Hst. inv_step Hst. reflexivity. }
+  destruct (Inv_sfailed_reach _ _ H) as [_ Hi]. destruct (Hi Hsf) as (Hs&_&_).
+  split; [exact Hs|]. split; [rewrite (ready_eq_started _ _ H); exact Hs|].
+  intros t Hapi. apply in_split in Hapi as (pre&post&->).
+  pose proof (api_after_flag _ _ _ _ H) as Hfl.
+  apply run_split in H as (s0&s1&Hpre&Hst&Hpost).
+  assert (Hs0 : started s0 = true).
+  { apply in_split in Hfl as (p1&p2&->). apply run_split in Hpre as (a&b&_&Hf&Hr).
+    eapply started_mono; eauto. unfold step in Hf. inv_step Hf. reflexivity. }
+  assert (Hs1 : started s1 = true) by (eapply started_mono_step; eauto).
+  rewrite (started_mono _ _ _ Hpost Hs1) in Hs. discriminate.
+Qed.
+
+Lemma ready_after_startup : forall tr s, run init tr = Some s -> ready s = true ->
+  started s = true /\ exists pre post, tr = pre ++ Flag :: post /\ In StartupOk pre.
+Proof.
+  intros tr s H Hr. rewrite (ready_eq_started _ _ H) in Hr. split; [exact Hr|].
+  pose proof (started_needs_Flag _ _ _ H eq_refl Hr) as Hin. apply in_split in Hin as (pre&post&->).
+  exists pre, post; split; [reflexivity|]. eapply flag_after_startup_ok; eauto.
+Qed.
+
+(* ------------------------------------------------------------------ 3. what run_tasks returns *)
+
+Lemma return_sound : forall s r s', step s (Return r) = Some s' ->
+  all_done (ph s) (hung s) = true /\
+  match r with
+  | ROk => mn s = MStopHung /\ no_error (ph s) (root_tasks ++ hung s) = true
+  | RErr e => mn s = MStopHung /\ first_error (ph s) (root_tasks ++ hung s) e = true
+  | RCancelled => mn s = MCStopHung
+  end.
+Proof.
+  intros s r s' H. unfold step in H. destruct (mn s) eqn:Em; try discriminate.
+  - destruct (all_done (ph s) (hung s)) eqn:Ea; cbn in H; [|discriminate]. split; [reflexivity|].
+    destruct r; try discriminate H.
+    + destruct (no_error _ _) eqn:En; [auto | discriminate].
+    + destruct (first_error _ _ _) eqn:En; [auto | discriminate].
+  - destruct (all_done (ph s) (hung s)) eqn:Ea; cbn in H; [|discriminate]. split; [reflexivity|].
+    destruct r; cbn in H; try discriminate; reflexivity.
+Qed.
+
+Lemma err_eqb_eq : forall a b, err_eqb a b = true -> a = b.
+Proof. intros [] [] H; cbn in H; try discriminate; auto. apply task_eqb_eq in H; now subst. Qed.
+
+Lemma first_error_sound : forall f ts e, first_error f ts e = true -> exists t, In t ts /\ f t = PDone (OErr e).
+Proof.
+  intros f ts e H. unfold first_error in H. apply existsb_exists in H as (t&Hin&Ht). exists t; split; auto.
+  unfold failed_with in Ht. destruct (f t) as [| | | | |[]]; try discriminate. apply err_eqb_eq in Ht; now subst.
+Qed.
+
+Lemma no_error_sound : forall f ts, no_error f ts = true -> forall t e, In t ts -> f t <> PDone (OErr e).
+Proof.
+  intros f ts H t e Hin E. unfold no_error in H. rewrite forallb_forall in H. specialize (H t Hin).
+  unfold failed_with in H. rewrite E in H. discriminate.
+Qed.
+
+(* ------------------------------------------------------------------ 4. Done is absorbing *)
+
+Lemma done_cancel : forall t p, is_done p = true -> cancel_phase t p = p.
+Proof. intros t [] H; try discriminate; reflexivity. Qed.
+
+Lemma done_absorbing_step : forall s l s' t, step s l = Some s' -> is_done (ph s t) = true -> ph s' t = ph s t.
+Proof.
+  intros s l s' t H Hd.
+  assert (Hc : forall ts, cancel_in (ph s) ts t = ph s t).
+  { intros ts. destruct (cancel_in_cases (ph s) ts t) as [->| ->]; auto using done_cancel. }
+  assert (Hu : forall x p, ph s x <> ph s t -> upd (ph s) x p t = ph s t).
+  { intros x p Hx. apply upd_other. intros ->. now apply Hx. }
+  destruct (ph s t) eqn:Ep; try discriminate.
+  destruct l; unfold step in H.
+  all: try (inv_step H; cbn; auto; fail).
+  - inv_step H; cbn. rewrite Ep; reflexivity.
+  - inv_step H; cbn; auto. apply cancel_roots_spec in E0. destruct E0 as (_&_&_&_&_&_&_&_&_&_&_&_&_&_&Hp).
+    destruct (Hp t) as [->|[->|(->&Hx&_)]]; auto. rewrite Ep; reflexivity. congruence.
+  - inv_step H; cbn. apply Hu. rewrite Ep; destruct (ph s t0); congruence.
+  - inv_step H; cbn; apply Hu; rewrite Ep; congruence.
+  - destruct (negb _) eqn:Eok in H; [discriminate|]. apply negb_false_iff in Eok.
+    assert (Hne : ph s t0 <> PDone o0) by (intros Ex; rewrite Ex in Eok; discriminate).
+    assert (H1 : upd (ph s) t0 (PDone o) t = PDone o0) by (rewrite Hu; [exact Ep | now rewrite Ep]).
+    destruct t0; try (injection H as <-; exact H1).
+    destruct o; try (injection H as <-; exact H1).
+    destruct (ph s (TWatcher w)) eqn:Ew; try (injection H as <-; exact H1).
+    injection H as <-. cbn. destruct (upd_cases (upd (ph s) (TWorker w n) (PDone (OErr e))) (TWatcher w)
+       (PEnding (OErr (EOf (TWatcher w)))) t) as [[-> _]|[_ ->]]; [congruence | exact H1].
+  - inv_step H; cbn. apply cancel_roots_spec in E1. destruct E1 as (_&_&_&_&_&_&_&_&_&_&_&_&_&_&Hp).
+    destruct (Hp t) as [->|[->|(->&Hx&_)]]; auto. rewrite Ep; reflexivity. congruence.
+  - inv_step H; unfold set_mn, set_hung, set_ph; cbn [ph]; auto.
+  - inv_step H; cbn; auto. apply Hu; rewrite Ep; congruence.
+  - inv_step H; cbn. apply Hu; rewrite Ep; congruence.
+  - inv_step H; cbn; auto; apply Hu; rewrite Ep; congruence.
+  - inv_step H; cbn; apply Hu; rewrite Ep; congruence.
+  - inv_step H; cbn; apply Hu; rewrite Ep; congruence.
+Qed.
+
+Lemma done_absorbing : forall tr s s' t, run s tr = Some s' -> is_done (ph s t) = true -> ph s' t = ph s t.
+Proof.
+  induction tr as [|l tr IH]; intros s s' t H Hd; cbn in H.
+  - now injection H as <-.
+  - destruct (step s l) as [s1|] eqn:E; [|discriminate].
+    pose proof (done_absorbing_step _ _ _ _ E Hd) as E1. rewrite <- E1. apply IH; auto. now rewrite E1.
+Qed.
